@@ -160,6 +160,8 @@ type World struct {
 	podLists int
 
 	D Decider
+	// DescribeOmit, when set, names ASGs that a successful DescribeAutoScalingGroups answer leaves out.
+	DescribeOmit func(asg string) bool
 
 	// Fleet behaviour.
 	ReadyFromPoll  int // instances report running from this poll on (1 = first poll); <0 never
